@@ -7,4 +7,5 @@ v=$(go version)
 case "$v" in *go1.23.5*) ;; *) echo "setup: expected go1.23.5, got $v"; exit 2;; esac
 python3 /verif/engine/mapctl/gen.py /verif/.build/mapctl
 ./build.sh plain /verif/.build/vcheck-plain
+./build.sh sched /verif/.build/vcheck-sched
 echo setup ok
